@@ -107,10 +107,12 @@ func NewLogger(config log.AccessLogConfig, logger log.Logger) gin.HandlerFunc {
 			return
 		}
 
-		// Note filter will modify the request/response headers, though
-		// they have already been written so it doesn't matter.
-		requestHeaders := requestHeaderFilter.Filter(c.Request.Header)
-		responseHeaders := responseHeaderFilter.Filter(c.Writer.Header())
+		// Note filter will modify the headers it is given, so filter a copy.
+		// The response headers may not have been written yet (such as a
+		// response with an empty body), so filtering them in place would
+		// strip them from the response itself.
+		requestHeaders := requestHeaderFilter.Filter(c.Request.Header.Clone())
+		responseHeaders := responseHeaderFilter.Filter(c.Writer.Header().Clone())
 
 		req := &loggedRequest{
 			Proto:           c.Request.Proto,
